@@ -23,6 +23,8 @@ inductive Err
   | io
   deriving Repr, DecidableEq, Inhabited
 
+deriving instance DecidableEq for Except
+
 inductive Res
   | ok
   | err (e : Err)
